@@ -132,8 +132,14 @@ Subscribe(c) ==
   /\ step' = [act |-> "Subscribe", c |-> c]
 
 \* handleTrack steps 1-4; v = version the client supplies (0 or the version it knows)
+\* Replay only: the order in which a broadcast visits the subscribers it snapshotted is Go map order.  While a
+\* broadcast is parked between the two phases of one subscriber, another subscriber of the snapshot (filtered in
+\* phase 1 or not, depending on that order) must not start to pass: its re-track is left to the exhaustive runs.
+ReplayTrackOK(c, k) == ~Replay \/ \A t \in Threads : ~(th[t].pc = "bcast" /\ th[t].cur.k = k /\ c \in th[t].cur.tg)
+
 Track1(c, k, v) ==
   /\ sub[c] /\ cst[c][k] = "no" /\ trk[c].k = None /\ ops < MaxOps /\ ops' = ops + 1
+  /\ ReplayTrackOK(c, k)
   /\ v \in {0, cver[c][k]}
   /\ LET isNew  == ~entry[k].ex
          e0     == IF isNew THEN [NoEntry EXCEPT !.ex = TRUE] ELSE entry[k]
